@@ -28,7 +28,8 @@ def showState (s : State) : String :=
     if n != 0 then some s!"{d}:{v}:{n}:{bal}:{"/".intercalate (hs.map toString)}" else none
   let rds := (List.range s.nVal).flatMap fun src => (List.range s.nVal).flatMap fun dst => (List.range s.nAcc).filterMap fun d =>
     let es := s.redel.filter (fun r => r.1 == d && r.2.1 == src && r.2.2.1 == dst)
-    if es.length != 0 then some s!"{d}:{src}:{dst}:{es.length}:{"/".intercalate (es.map (fun r => toString r.2.2.2))}" else none
+    if es.length != 0 then some (s!"{d}:{src}:{dst}:{es.length}:{"/".intercalate (es.map (fun r => toString r.2.2.2.1))}" ++
+      s!":{"/".intercalate (es.map (fun r => toString r.2.2.2.2.1))}:{"/".intercalate (es.map (fun r => toString r.2.2.2.2.2))}") else none
   s!"h={s.height} " ++ " ".intercalate vs ++
     s!" A({",".intercalate al}) G({",".intercalate gs}) U({",".intercalate us}) Rd({",".intercalate rds})" ++
     -- bank side: bonded pool, not-bonded pool, distribution module account (relative to genesis), community pool
@@ -52,10 +53,10 @@ def parseVal (w : String) : Option (Nat × Nat) :=
   | [a, b] => match a.toNat?, b.toNat? with | some x, some y => some (x, y) | _, _ => none
   | _ => none
 
-def parseOp (ws : List String) : Option (Op × Bool) :=
+def parseOp (h : Nat) (ws : List String) : Option (Op × Bool) :=
   match ws with
   | "block" :: [] => some (.block, false)
-  | "mature" :: [] => some (.mature, false)
+  | "mature" :: [] => some (.mature h, false)      -- everything matures
   | cmd :: args =>
     match args.mapM nat? with
     | none => none
@@ -72,6 +73,7 @@ def parseOp (ws : List String) : Option (Op × Bool) :=
       | "slash", [v, p, f] => some (.slash v p f, false)
       | "jail", [v] => some (.jail v, false)
       | "unjail", [v] => some (.unjail v, false)
+      | "mature", [H] => some (.mature H, false)
       | _, _ => none
   | [] => none
 
@@ -104,8 +106,30 @@ def step (st : State) (line : String) : State × String :=
       let r := (st.vs v).delegationView d
       (st, "ok | " ++ showState st ++ s!" ret={r.1}:{r.2}")
     | _, _ => (st, "bad-op")
+  -- one transaction of a spender contract that calls transferFromShares(from, to, v, x) for every (v, x) pair:
+  -- `atomic`: a failing call fails the transaction; `each`: the contract swallows the failure of a call
+  | "multiFrom" :: mode :: rest =>
+    match rest.mapM nat? with
+    | some (sp :: f :: t :: items) =>
+      let rec pairs : List Nat → Option (List (Nat × Nat))
+        | [] => some []
+        | v :: x :: more => (pairs more).map (fun ps => (v, x) :: ps)
+        | _ => none
+      match pairs items with
+      | none => (st, "bad-op")
+      | some ps =>
+        let ops := ps.map (fun i => Op.transferFrom sp f t i.1 i.2)
+        if mode == "atomic" then
+          match st.execAll FxVerif.Gen.C11.cfg ops with
+          | .ok s' => (s', "ok | " ++ showState s')
+          | .error _ => (st, "err | " ++ showState st)
+        else if mode == "each" then
+          let s' := st.run FxVerif.Gen.C11.cfg ops
+          (s', "ok | " ++ showState s')
+        else (st, "bad-op")
+    | _ => (st, "bad-op")
   | ws =>
-    match parseOp ws with
+    match parseOp st.height ws with
     | none => (st, "bad-op")
     | some (op, tl) =>
       match st.exec FxVerif.Gen.C11.cfg op with
